@@ -8,6 +8,10 @@
  CTX-F  reduce_value_impl passes the context as first argument iff the rule was attached with >>= (ARGS, all arms)
  CTX-O  operator>>= builds rule<true,...>, operator>=, nterm::operator() and the constructors rule<false,...>,
         operator[] keeps the flag
+ CTX-T  the "contextual" flag and the functor type of a rule travel unchanged from the rule's type to the reductor stored
+        for it: init_nth_reductor<Nr, RC, F, ...> stores &reduce_value<Nr, RC, F, ...>, which calls
+        reduce_value_impl<RC, F, ...> (compared on the template arguments of every instantiation, including a
+        contextual functor that could also be called without the context)
  CTX-P  parse(...) is context_parse(no_type{}, ...): same result for grammars that ignore the context
 """
 import re
@@ -34,6 +38,7 @@ def check(chk, fx):
     c02.args(chk, fx)
     ctx_o(chk, fx)
     ctx_p(chk, fx)
+    ctx_t(chk, fx)
 
 
 CHAIN = [
@@ -210,3 +215,60 @@ def ctx_p(chk, fx):
                 chk.ok("CTX-P", A.site(f), "parse/%d -> %s" % (n, rets[0][:60]))
         else:
             chk.violation("CTX-P", A.site(f), "CTX-P:parse/%d" % n, "parse with %d parameter(s) returns %s" % (n, rets))
+
+
+# ------------------------------------------------------------------------------------------------- CTX-T
+def _targs(f):
+    return [a.strip() for a in (f.o.get("targs") or "").split(" | ")]
+
+
+def ctx_t(chk, fx):
+    chk.rule("CTX-T", "instantiations in which the contextual flag / functor type reach the stored reductor unchanged", 20)
+    seen = set()
+    variadic = False
+    for f in fx.fns(VR + "init_nth_reductor"):
+        if f.is_pattern:
+            continue
+        ta = _targs(f)
+        if len(ta) < 3:
+            chk.incomplete("CTX-T: template arguments of init_nth_reductor not recorded")
+        refs = [n for n in walk(f.body) if n.get("k") == "DeclRefExpr" and n["d"]["k"] in ("Function", "CXXMethod") and
+                n["d"]["n"] == "reduce_value"]
+        if len(refs) != 1:
+            chk.incomplete("CTX-T: init_nth_reductor does not take the address of exactly one reduce_value")
+        g = f.facts.by_id.get(refs[0]["d"]["id"])
+        if g is None:
+            chk.incomplete("CTX-T: the stored reduce_value instantiation has no body in this TU")
+        tg = _targs(g)
+        key = (tuple(ta[:3]), tuple(tg[:3]))
+        if key in seen:
+            continue
+        seen.add(key)
+        site = A.site(f, refs[0])
+        if ta[:3] == tg[:3]:
+            chk.ok("CTX-T", site, "rule %s (contextual=%s) stores reduce_value<%s, %s, ...>" % (ta[0], ta[1], tg[0], tg[1]))
+        else:
+            chk.violation("CTX-T", site, "CTX-T:init_nth_reductor",
+                          "the rule is rule<%s, %s, ...> (number %s) but the stored reductor is reduce_value<%s, %s, %s, "
+                          "...>: the functor %s the context" % (ta[1], ta[2][:60], ta[0], tg[0], tg[1], tg[2][:60],
+                                                                "is called WITHOUT" if ta[1] == "true" else "is handed"))
+        # second hop
+        calls = [n for n in walk(g.body) if n.get("k") == "CallExpr" and (n.get("callee") or {}).get("n") == "reduce_value_impl"]
+        if len(calls) != 1:
+            chk.incomplete("CTX-T: reduce_value does not call reduce_value_impl exactly once")
+        h = g.facts.by_id.get(calls[0]["callee"]["id"])
+        if h is None:
+            chk.incomplete("CTX-T: reduce_value_impl instantiation not found")
+        th = _targs(h)
+        if th[:2] == tg[1:3]:
+            chk.ok("CTX-T", A.site(g, calls[0]), "reduce_value<%s, %s> calls reduce_value_impl<%s, ...>" % (tg[0], tg[1], th[0]))
+        else:
+            chk.violation("CTX-T", A.site(g, calls[0]), "CTX-T:reduce_value",
+                          "reduce_value<%s, %s, %s...> calls reduce_value_impl<%s, %s...>" % (
+                              tg[0], tg[1], tg[2][:50], th[0], th[1][:50]))
+    # the witness that makes the rule bite: a '>>=' functor invocable with and without the context
+    opt_ok = not any(t.endswith("w_ctxflag.cpp") for t in getattr(fx, "failed", {}))
+    if opt_ok:
+        n_ctx = [k for k in seen if k[0][1] == "true" and "w_ctxflag.cpp" in k[0][2]]
+        if len(n_ctx) < 3:
+            chk.incomplete("CTX-T: the three contextual rules of witness/w_ctxflag.cpp were not all instantiated")
